@@ -34,6 +34,16 @@ type stAction struct {
 	V    int    `json:"v,omitempty"`
 	K    string `json:"k,omitempty"`
 	X    string `json:"x,omitempty"`
+	F    string `json:"f,omitempty"` // ReadFault: the model's fault position (a written contract, "ctrie", "cltrie")
+}
+
+// stMag is the behaviour's magnitude assignment (FeltDomain.tla / StateMBT.tla): a class per storage value
+// index, class hash, compiled class hash and nonce value.
+type stMag struct {
+	Val   []string          `json:"val,omitempty"`
+	Class map[string]string `json:"class,omitempty"`
+	Comp  map[string]string `json:"comp,omitempty"`
+	Nonce []string          `json:"nonce,omitempty"`
 }
 
 type stState struct {
@@ -44,8 +54,9 @@ type stState struct {
 }
 
 type stStep struct {
-	A  stAction `json:"a"`
-	St *stState `json:"st,omitempty"`
+	A   stAction `json:"a"`
+	St  *stState `json:"st,omitempty"`
+	Mag *stMag   `json:"mag,omitempty"` // on the first step of a behaviour
 }
 
 type stConfig struct {
@@ -55,6 +66,7 @@ type stConfig struct {
 	Seed     int64  `json:"seed"`
 	Poison   bool   `json:"poison"`  // poisoning store: lent Get buffers are scribbled after the callback
 	NilMaps  bool   `json:"nilMaps"` // empty dimensions of a state diff are nil maps instead of empty maps
+	Faults   int    `json:"faults"`  // read-fault sweep: at most this many read positions per marked block (0 = no sweep)
 }
 
 type stateInput struct {
@@ -66,13 +78,21 @@ type stateInput struct {
 type stConcrete struct {
 	addr, slot, class, sierra, compiled map[string]*felt.Felt
 	val                                 []*felt.Felt
+	nonces                              []*felt.Felt // nonces[n] = the felt of abstract nonce value n
+}
+
+func (c *stConcrete) nonce(n int) *felt.Felt {
+	if n < len(c.nonces) && c.nonces[n] != nil {
+		return c.nonces[n]
+	}
+	return felt.NewFromUint64[felt.Felt](uint64(n))
 }
 
 func randFelt251(r *rand.Rand) *big.Int {
 	return new(big.Int).Rand(r, new(big.Int).Lsh(big.NewInt(1), 251))
 }
 
-func newStConcrete(seed int64) *stConcrete {
+func newStConcrete(seed int64, mag *stMag) *stConcrete {
 	r := rand.New(rand.NewSource(seed))
 	f := func(b *big.Int) *felt.Felt { return new(felt.Felt).SetBigInt(b) }
 	c := &stConcrete{addr: map[string]*felt.Felt{}, slot: map[string]*felt.Felt{}, class: map[string]*felt.Felt{},
@@ -112,7 +132,52 @@ func newStConcrete(seed int64) *stConcrete {
 	for i := 0; i < 8; i++ {
 		c.val = append(c.val, f(new(big.Int).Add(randFelt251(r), big.NewInt(1))))
 	}
+	c.nonces = make([]*felt.Felt, 8)
+	// value-domain dimension: the behaviour's magnitude classes replace the default (random 251-bit) felts
+	if mag != nil {
+		for i, cl := range mag.Val {
+			if i+1 < len(c.val) && cl != "" {
+				c.val[i+1] = magFelt(cl, seed, i+1)
+			}
+		}
+		for n, cl := range mag.Class {
+			if cl != "" && c.class[n] != nil && n != "0" {
+				c.class[n] = magFelt(cl, seed+1, 10+len(n)+int(n[len(n)-1]))
+			}
+		}
+		for n, cl := range mag.Comp {
+			if cl != "" && c.compiled[n] != nil {
+				c.compiled[n] = magFelt(cl, seed+2, 20+int(n[len(n)-1]))
+			}
+		}
+		for i, cl := range mag.Nonce {
+			if i+1 < len(c.nonces) && cl != "" {
+				c.nonces[i+1] = magFelt(cl, seed+3, 30+i)
+			}
+		}
+	}
 	return c
+}
+
+// topClassUsed is the highest magnitude class among the felts the abstract state holds (values, class hashes,
+// nonces, compiled class hashes).
+func (c *stConcrete) topClassUsed(s *stState) string {
+	var fs []felt.Felt
+	for name, h := range s.Deployed {
+		if h == "" || h == "-" {
+			continue
+		}
+		fs = append(fs, *c.class[h], *c.nonce(s.Nonce[name]))
+		for _, v := range s.Store[name] {
+			fs = append(fs, *c.val[v])
+		}
+	}
+	for _, x := range s.Declared {
+		if x != "" && x != "-" {
+			fs = append(fs, *c.compiled[x])
+		}
+	}
+	return topClass(fs)
 }
 
 func newStState() *stState {
@@ -147,7 +212,7 @@ func (s *stState) ref(c *stConcrete) *refimpl.State {
 			continue
 		}
 		rc := &refimpl.Contract{ClassHash: *c.class[h], Storage: refimpl.KV{}}
-		rc.Nonce.SetUint64(uint64(s.Nonce[name]))
+		rc.Nonce = *c.nonce(s.Nonce[name])
 		for slot, v := range s.Store[name] {
 			rc.Storage[refimpl.Key(bigOf(c.slot[slot]))] = *c.val[v]
 		}
@@ -197,51 +262,57 @@ func (s *stState) equalModel(m *stState) bool {
 
 // splitBlocks groups the behaviour's updates into blocks; restart[i] = the node is restarted (new
 // Blockchain on the same store) before block i.
-func splitBlocks(beh []stStep, mode string) (blocks [][]stAction, restart []bool) {
+// fault[i] = the model had a ReadFault step while block i was under construction: the replayer sweeps the
+// read positions of that block's application.
+func splitBlocks(beh []stStep, mode string) (blocks [][]stAction, restart, fault []bool) {
 	var model [][]stAction
-	var mrestart []bool
+	var mrestart, mfault []bool
 	cur := []stAction{}
-	pending := false
+	pending, fpending := false, false
 	for _, s := range beh {
 		switch s.A.Name {
 		case "Restart":
 			pending = true
+		case "ReadFault":
+			fpending = true
 		case "EndBlock":
 			model = append(model, cur)
-			mrestart = append(mrestart, pending)
-			cur, pending = []stAction{}, false
+			mrestart, mfault = append(mrestart, pending), append(mfault, fpending)
+			cur, pending, fpending = []stAction{}, false, false
 		default:
 			cur = append(cur, s.A)
 		}
 	}
 	if len(cur) > 0 {
 		model = append(model, cur)
-		mrestart = append(mrestart, pending)
+		mrestart, mfault = append(mrestart, pending), append(mfault, fpending)
 	}
 	switch mode {
 	case "single":
 		for i, b := range model {
 			if len(b) == 0 {
-				blocks, restart = append(blocks, b), append(restart, mrestart[i])
+				blocks, restart, fault = append(blocks, b), append(restart, mrestart[i]), append(fault, false)
 			}
 			for j, a := range b {
-				blocks, restart = append(blocks, []stAction{a}), append(restart, mrestart[i] && j == 0)
+				// the fault lands on the last update of the model's block (the tries are fullest then)
+				blocks, restart, fault = append(blocks, []stAction{a}), append(restart, mrestart[i] && j == 0), append(fault, mfault[i] && j == len(b)-1)
 			}
 		}
-		return blocks, restart
+		return blocks, restart, fault
 	case "merged":
 		for i := 0; i < len(model); i++ {
 			b := append([]stAction{}, model[i]...)
-			r := mrestart[i]
+			r, f := mrestart[i], mfault[i]
 			if i+1 < len(model) && !mrestart[i+1] && mergeable(b, model[i+1]) {
 				b = append(b, model[i+1]...)
+				f = f || mfault[i+1]
 				i++
 			}
-			blocks, restart = append(blocks, b), append(restart, r)
+			blocks, restart, fault = append(blocks, b), append(restart, r), append(fault, f)
 		}
-		return blocks, restart
+		return blocks, restart, fault
 	}
-	return model, mrestart
+	return model, mrestart, mfault
 }
 
 // a state diff cannot both deploy a contract and replace its class
@@ -319,19 +390,24 @@ type stOutcome struct {
 	expected, observed string
 }
 
-func runStateConfig(beh []stStep, cfg stConfig) (o *stOutcome, blocks int) {
+func runStateConfig(beh []stStep, cfg stConfig, counts map[string]int) (o *stOutcome, blocks int) {
 	defer func() {
 		if p := recover(); p != nil {
 			o = &stOutcome{key: "state-panic:" + backendName(cfg.NewState), what: fmt.Sprintf("panic: %v", p), block: blocks}
 		}
 	}()
-	conc := newStConcrete(cfg.Seed)
-	var store db.KeyValueStore = memory.New()
+	var mag *stMag
+	if len(beh) > 0 {
+		mag = beh[0].Mag
+	}
+	conc := newStConcrete(cfg.Seed, mag)
+	raw := memory.New()
+	var store db.KeyValueStore = raw
 	if cfg.Poison {
 		store = newPoisonStore(store)
 	}
 	bc := blockchain.New(store, &networks.Sepolia, blockchain.WithNewState(cfg.NewState))
-	groups, restarts := splitBlocks(beh, cfg.Split)
+	groups, restarts, faults := splitBlocks(beh, cfg.Split)
 	var rootCopies []felt.Felt // GlobalStateRoot of every block at the time Finalise returned
 	var rootPtrs []*felt.Felt  // ... and the pointer the block header kept
 	st := newStState()
@@ -347,71 +423,86 @@ func runStateConfig(beh []stStep, cfg stConfig) (o *stOutcome, blocks int) {
 			}
 			bc = blockchain.New(store, &networks.Sepolia, blockchain.WithNewState(cfg.NewState))
 		}
-		diff := &core.StateDiff{}
-		if !cfg.NilMaps {
-			diff = &core.StateDiff{
-				StorageDiffs: map[felt.Felt]map[felt.Felt]*felt.Felt{}, Nonces: map[felt.Felt]*felt.Felt{},
-				DeployedContracts: map[felt.Felt]*felt.Felt{}, DeclaredV1Classes: map[felt.Felt]*felt.Felt{},
-				ReplacedClasses: map[felt.Felt]*felt.Felt{}, DeclaredV0Classes: []*felt.Felt{},
-				MigratedClasses: map[felt.SierraClassHash]felt.CasmClassHash{},
-			}
-		}
-		classes := map[felt.Felt]core.ClassDefinition{}
 		for _, a := range g {
 			st.apply(a)
-			switch a.Name {
-			case "Deploy":
-				if diff.DeployedContracts == nil {
-					diff.DeployedContracts = map[felt.Felt]*felt.Felt{}
+		}
+		ver, since0140 := versionOf(cfg.Versions, bi, len(groups))
+		parentNow, oldRootNow := parent, oldRoot
+		build := func() (*core.Block, *core.StateUpdate, map[felt.Felt]core.ClassDefinition) {
+			diff := &core.StateDiff{}
+			if !cfg.NilMaps {
+				diff = &core.StateDiff{
+					StorageDiffs: map[felt.Felt]map[felt.Felt]*felt.Felt{}, Nonces: map[felt.Felt]*felt.Felt{},
+					DeployedContracts: map[felt.Felt]*felt.Felt{}, DeclaredV1Classes: map[felt.Felt]*felt.Felt{},
+					ReplacedClasses: map[felt.Felt]*felt.Felt{}, DeclaredV0Classes: []*felt.Felt{},
+					MigratedClasses: map[felt.SierraClassHash]felt.CasmClassHash{},
 				}
-				diff.DeployedContracts[*conc.addr[a.C]] = conc.class[a.H]
-			case "Replace":
-				if diff.ReplacedClasses == nil {
-					diff.ReplacedClasses = map[felt.Felt]*felt.Felt{}
+			}
+			classes := map[felt.Felt]core.ClassDefinition{}
+			for _, a := range g {
+				switch a.Name {
+				case "Deploy":
+					if diff.DeployedContracts == nil {
+						diff.DeployedContracts = map[felt.Felt]*felt.Felt{}
+					}
+					diff.DeployedContracts[*conc.addr[a.C]] = conc.class[a.H]
+				case "Replace":
+					if diff.ReplacedClasses == nil {
+						diff.ReplacedClasses = map[felt.Felt]*felt.Felt{}
+					}
+					diff.ReplacedClasses[*conc.addr[a.C]] = conc.class[a.H]
+				case "Nonce":
+					if diff.Nonces == nil {
+						diff.Nonces = map[felt.Felt]*felt.Felt{}
+					}
+					diff.Nonces[*conc.addr[a.C]] = conc.nonce(a.N)
+				case "Write":
+					if diff.StorageDiffs == nil {
+						diff.StorageDiffs = map[felt.Felt]map[felt.Felt]*felt.Felt{}
+					}
+					m := diff.StorageDiffs[*conc.addr[a.C]]
+					if m == nil {
+						m = map[felt.Felt]*felt.Felt{}
+						diff.StorageDiffs[*conc.addr[a.C]] = m
+					}
+					m[*conc.slot[a.S]] = conc.val[a.V]
+				case "Declare":
+					if diff.DeclaredV1Classes == nil {
+						diff.DeclaredV1Classes = map[felt.Felt]*felt.Felt{}
+					}
+					diff.DeclaredV1Classes[*conc.sierra[a.K]] = conc.compiled[a.X]
+					classes[*conc.sierra[a.K]] = minimalSierra(cfg.Seed + int64(len(a.K)) + int64(a.K[1]))
 				}
-				diff.ReplacedClasses[*conc.addr[a.C]] = conc.class[a.H]
-			case "Nonce":
-				if diff.Nonces == nil {
-					diff.Nonces = map[felt.Felt]*felt.Felt{}
-				}
-				diff.Nonces[*conc.addr[a.C]] = felt.NewFromUint64[felt.Felt](uint64(a.N))
-			case "Write":
-				if diff.StorageDiffs == nil {
-					diff.StorageDiffs = map[felt.Felt]map[felt.Felt]*felt.Felt{}
-				}
-				m := diff.StorageDiffs[*conc.addr[a.C]]
-				if m == nil {
-					m = map[felt.Felt]*felt.Felt{}
-					diff.StorageDiffs[*conc.addr[a.C]] = m
-				}
-				m[*conc.slot[a.S]] = conc.val[a.V]
-			case "Declare":
-				if diff.DeclaredV1Classes == nil {
-					diff.DeclaredV1Classes = map[felt.Felt]*felt.Felt{}
-				}
-				diff.DeclaredV1Classes[*conc.sierra[a.K]] = conc.compiled[a.X]
-				classes[*conc.sierra[a.K]] = minimalSierra(cfg.Seed + int64(len(a.K)) + int64(a.K[1]))
+			}
+			receipts := []*core.TransactionReceipt{}
+			block := &core.Block{
+				Header: &core.Header{
+					ParentHash: parentNow, Number: uint64(bi), SequencerAddress: one, Timestamp: uint64(1_700_000_000 + bi),
+					ProtocolVersion: ver, EventsBloom: core.EventsBloom(receipts),
+					L1GasPriceETH: one, L1GasPriceSTRK: one, L2GasPrice: &core.GasPrice{PriceInWei: one, PriceInFri: one},
+					L1DataGasPrice: &core.GasPrice{PriceInWei: one, PriceInFri: one},
+				},
+				Transactions: []core.Transaction{}, Receipts: receipts,
+			}
+			su := &core.StateUpdate{OldRoot: oldRootNow, StateDiff: diff}
+			return block, su, classes
+		}
+		want := refimpl.GlobalRoot(st.ref(conc), since0140)
+		if faults[bi] && cfg.Faults > 0 {
+			var junoWant felt.Felt
+			refimpl.WithJuno(func() { junoWant = refimpl.GlobalRoot(st.ref(conc), since0140) })
+			if o := sweepReadFaults(raw, cfg.NewState, build, &want, &junoWant, bi, cfg.Faults, counts); o != nil {
+				return o, bi
 			}
 		}
+		block, su, classes := build()
+		diff := su.StateDiff
 		diffBefore := renderDiff(diff)
-		ver, since0140 := versionOf(cfg.Versions, bi, len(groups))
-		receipts := []*core.TransactionReceipt{}
-		block := &core.Block{
-			Header: &core.Header{
-				ParentHash: parent, Number: uint64(bi), SequencerAddress: one, Timestamp: uint64(1_700_000_000 + bi),
-				ProtocolVersion: ver, EventsBloom: core.EventsBloom(receipts),
-				L1GasPriceETH: one, L1GasPriceSTRK: one, L2GasPrice: &core.GasPrice{PriceInWei: one, PriceInFri: one},
-				L1DataGasPrice: &core.GasPrice{PriceInWei: one, PriceInFri: one},
-			},
-			Transactions: []core.Transaction{}, Receipts: receipts,
-		}
-		su := &core.StateUpdate{OldRoot: oldRoot, StateDiff: diff}
 		if err := bc.Finalise(block, su, classes, nil); err != nil {
 			return &stOutcome{key: "state-finalise-error:" + be, block: bi,
 				what: fmt.Sprintf("Finalise of block %d (%d updates, version %s) failed: %v", bi, len(g), ver, err)}, bi
 		}
 		blocks = bi + 1
-		want := refimpl.GlobalRoot(st.ref(conc), since0140)
 		got := block.GlobalStateRoot
 		if got == nil || !got.Equal(&want) {
 			gs := "nil"
@@ -421,6 +512,17 @@ func runStateConfig(beh []stStep, cfg stConfig) (o *stOutcome, blocks int) {
 			side := "pre-0.14.0"
 			if since0140 {
 				side = "since-0.14.0"
+			}
+			// localisation: equal to the same definition evaluated with core/crypto's primitives => the primitive is wrong
+			if refimpl.Independent() && got != nil {
+				var junoWant felt.Felt
+				refimpl.WithJuno(func() { junoWant = refimpl.GlobalRoot(st.ref(conc), since0140) })
+				if !junoWant.Equal(&want) && junoWant.Equal(got) {
+					return &stOutcome{key: "crypto:state-root:operands-up-to-" + conc.topClassUsed(st), block: bi,
+						what: fmt.Sprintf("GlobalStateRoot of block %d (backend %s, protocol %s) differs from the protocol commitment computed with the independent hash "+
+							"references and equals the same definition computed with core/crypto: a hash primitive is wrong for operands of this magnitude", bi, be, ver),
+						expected: want.String(), observed: gs}, bi
+				}
 			}
 			return &stOutcome{key: fmt.Sprintf("state-root:%s:%s", be, side), block: bi,
 				what:     fmt.Sprintf("GlobalStateRoot of block %d (protocol %s, split %s) differs from the protocol commitment of the abstract state", bi, ver, cfg.Split),
@@ -476,9 +578,9 @@ func runStateConfig(beh []stStep, cfg stConfig) (o *stOutcome, blocks int) {
 					expected: conc.class[h].String(), observed: ch.String()}, blocks
 			}
 			nn, err := reader.ContractNonce(conc.addr[name])
-			if err != nil || nn.Uint64() != uint64(st.Nonce[name]) {
+			if err != nil || !nn.Equal(conc.nonce(st.Nonce[name])) {
 				return &stOutcome{key: "state-read:nonce:" + be, what: fmt.Sprintf("ContractNonce(%s) differs from the model (err %v)", name, err),
-					expected: fmt.Sprint(st.Nonce[name]), observed: nn.String()}, blocks
+					expected: conc.nonce(st.Nonce[name]).String(), observed: nn.String()}, blocks
 			}
 			for _, slot := range []string{"s1", "s2", "s3", "s4"} {
 				want := conc.val[st.Store[name][slot]]
@@ -516,6 +618,12 @@ func TestStateReplay(t *testing.T) {
 	out := vh.NewResult()
 	defer out.Write()
 	defer guard(out, "TestStateReplay", nil)
+	restore, err := refimpl.UseIndependent()
+	if err != nil {
+		t.Fatal(err) // the references fail their own known answers: broken machinery, never a verdict
+	}
+	defer restore()
+	counts := map[string]int{}
 	splits := []string{"model", "single", "merged"}
 	versions := []string{"pre", "post", "upgrade"}
 	for bi, beh := range in.Behaviours {
@@ -540,13 +648,21 @@ func TestStateReplay(t *testing.T) {
 				sp := splits[(bi+k)%3]
 				ve := versions[(bi/3+k+int(vh.Seed()))%3]
 				for _, ns := range []bool{false, true} {
+					// read-fault sweep on the blocks the model marked: one (split, versions) pair per behaviour
+					faults := 0
+					if k == 0 {
+						faults = 24
+						if vh.Thorough() {
+							faults = 1000
+						}
+					}
 					cfgs = append(cfgs, stConfig{NewState: ns, Versions: ve, Split: sp, Seed: vh.Seed()*7919 + int64(bi),
-						Poison: (bi+k)%2 == 0, NilMaps: (bi+k)%3 == 0})
+						Poison: (bi+k)%2 == 0, NilMaps: (bi+k)%3 == 0, Faults: faults})
 				}
 			}
 		}
 		for _, cfg := range cfgs {
-			o, nblocks := runStateConfig(beh, cfg)
+			o, nblocks := runStateConfig(beh, cfg, counts)
 			out.Done(1, nblocks)
 			out.Count("state_blocks_"+backendName(cfg.NewState), nblocks)
 			out.Count("state_runs_"+cfg.Versions+"_"+cfg.Split, 1)
@@ -560,6 +676,9 @@ func TestStateReplay(t *testing.T) {
 					Input: stateInput{Behaviours: [][]stStep{beh}, Configs: []stConfig{cfg}}})
 			}
 		}
+	}
+	for k, c := range counts {
+		out.Count("state_"+k, c)
 	}
 	if len(in.Behaviours) > 0 {
 		out.Sample(vh.J{"kind": "state", "first_steps": in.Behaviours[0][:min(8, len(in.Behaviours[0]))]})
